@@ -283,14 +283,14 @@ bool Session::process(const f8String& from)
 
 	try
 	{
-		const f8String::size_type fpos(from.find("34="));
+		const f8String::size_type fpos(from.find("\x01" "34=")); // the tag at a field boundary, not the same text inside a value
 		if (fpos == f8String::npos)
 		{
 			slout_debug << "Session::process throwing for " << from;
 			throw InvalidMessage(from, FILE_LINE);
 		}
 
-		seqnum = fast_atoi<unsigned>(from.data() + fpos + 3, default_field_separator);
+		seqnum = fast_atoi<unsigned>(from.data() + fpos + 4, default_field_separator);
 
 		bool retry_plog(false);
 		if (_plogger && _plogger->has_flag(Logger::inbound))
@@ -306,6 +306,10 @@ bool Session::process(const f8String& from)
 			glout_fatal << "Fatal: factory failed to generate a valid message";
 			return false;
 		}
+
+		msg_seq_num msn; // the decoded field is authoritative
+		if (msg->Header()->get(msn))
+			seqnum = msn();
 
 		if ((_control & printnohb) && msg->get_msgtype() != Common_MsgType_HEARTBEAT)
 			cout << *msg << endl;
